@@ -60,3 +60,17 @@ func Cleanup() {
 		}
 	}
 }
+
+// DiskDir creates a fresh directory on a second file system ($VERIF_DISK_SCRATCH, provided and removed by run.sh),
+// for cases that need source and destination on different file systems. "" when there is none.
+func DiskDir(tag string) string {
+	base := os.Getenv("VERIF_DISK_SCRATCH")
+	if base == "" {
+		return ""
+	}
+	d := filepath.Join(base, fmt.Sprintf("p%d-%s%d", os.Getpid(), tag, seq.Add(1)))
+	if err := os.MkdirAll(d, 0755); err != nil {
+		return ""
+	}
+	return d
+}
